@@ -441,10 +441,8 @@ func init() {
 			}
 			rec := RelRec{ID: id, P: p, O: o, Dia: dia, RTL: isRTL, Text: text, Exact: exact && !(*profile == "accel" && strings.Contains(text, `\G`) && false), Variant: *variant, Mode: findMode(reA), HasG: strings.Contains(text, `\G`), Cases: []RelCase{}}
 			modes[rec.Mode]++
-			probe := &specProbe{}
-			if rec.Exact {
-				probe = newSpecProbe(text, optBits(o, dia, isRTL))
-			}
+			// every start offset is searched twice below, and inside the fragment once more by TLC: the probe looks at all of them
+			probe := newSpecProbe(text, optBits(o, dia, isRTL))
 			for _, s := range g.Inputs(t, *ni, *maxLen, alpha) {
 				in := intsToRunes(s)
 				if cheapest(func() { reB.FindRunesMatch(in) }) > 60_000 || probe.heavy(in, isRTL) {
